@@ -344,6 +344,7 @@ class CallMixin:
         st.assume(self.elems(r).t == src_elems.t)
         if strict:
             st.assume(z3.ForAll([i, j], z3.Implies(z3.And(0 <= i, i < j, j < n), lt(arr[i], arr[j]))))
+            st.assume(n == self.card(st, src_elems).t)  # a duplicate-free enumeration of a set has its cardinality
             if isinstance(src.ty, T.Seq):
                 st.assume(n <= src.ty.len(src.t))
                 # no duplicates in the source  <=>  same length
